@@ -123,41 +123,6 @@ fn c09_is_valid_duration_huge_field() {
     assert!(!is_valid_duration(f[0], f[1], f[2], f[3], f[4], f[5], f[6], f[7], f[8], f[9]));
 }
 
-/// NormalizeTimeDuration, one field at a time: a duration whose only non-zero field is an arbitrary integral double
-/// within that field's valid range normalises to exactly that many nanoseconds (no saturation, no rounding).
-// bounded: one non-zero field per harness (the full six-field product of f64->i128 conversions times out in CBMC)
-#[kani::proof]
-fn c06_from_time_duration_ns() {
-    let x: f64 = kani::any();
-    kani::assume(x.is_finite() && x == x.trunc() && x.abs() < 9.0e24);
-    let z = FiniteF64::default();
-    let t = TimeDuration::new_unchecked(z, z, z, z, z, FiniteF64(x));
-    kani::cover!(x > 1.0e19);
-    let norm = NormalizedTimeDuration::from_time_duration(&t);
-    assert!(norm.0 == x as i128);
-    assert!((norm.0 as f64) == x);
-}
-// bounded: one non-zero field per harness
-#[kani::proof]
-fn c06_from_time_duration_us() {
-    let x: f64 = kani::any();
-    kani::assume(x.is_finite() && x == x.trunc() && x.abs() < 9.0e21);
-    let z = FiniteF64::default();
-    let t = TimeDuration::new_unchecked(z, z, z, z, FiniteF64(x), z);
-    let norm = NormalizedTimeDuration::from_time_duration(&t);
-    assert!(norm.0 == (x as i128) * 1_000);
-}
-// bounded: one non-zero field per harness
-#[kani::proof]
-fn c06_from_time_duration_hours() {
-    let x: f64 = kani::any();
-    kani::assume(x.is_finite() && x == x.trunc() && x.abs() < 2.5e12);
-    let z = FiniteF64::default();
-    let t = TimeDuration::new_unchecked(FiniteF64(x), z, z, z, z, z);
-    let norm = NormalizedTimeDuration::from_time_duration(&t);
-    assert!(norm.0 == (x as i128) * 3_600_000_000_000);
-}
-
 // ---- F-bridge: the contracts Verus assumes on src/primitive.rs (specs/f64.rs), proved on the real methods ----
 
 /// as_date_value: integral x in i32 range -> Ok(x); integral x outside -> RangeError
